@@ -2,12 +2,15 @@ import Blue.Model.BlockSeal
 import Blue.Model.SstBuild
 import Blue.Model.SstFile
 import Blue.Model.Setsum
+import Blue.Model.Sbbf
 import Blue.Driver.Util
 /-! Driver verbs for blocks and tables (property C10).
 
     Byte strings: `-` (empty) or parts joined by `+`, a part being lowercase hex or `hh*n`
     (byte `hh` repeated `n` times).  Entries: `P,key,ts,value[,sha3]` / `D,key,ts[,sha3]`.
-    Cursor ops: `F L N P`, `S,key`, `G,key,ts` (point lookup). -/
+    Cursor ops: `F L N P`, `S,key`, `G,key,ts` (point lookup).
+    Bloom filter (`bloom …`): hash words (what `Filter::defer_insert(item)` returned) in decimal,
+    comma separated, `-` for none. -/
 namespace Blue.Driver.C10
 open Blue.Driver Blue.Block Blue.BlockCursor Blue.Sst Blue.Cursor Blue.SstOpen
 
@@ -255,6 +258,73 @@ def handleMulti (o : SstOpts) (filters : List (List Nat)) (atts : List Attempt) 
     if ms == ms' then s!"{head} M={if ms.isEmpty then "none" else ",".intercalate ms}"
     else s!"{head} model-split M={if ms.isEmpty then "none" else ",".intercalate ms}"
 
+/-! ### the bloom filter (sst/src/sbbf.rs) -/
+namespace Bloom
+open Blue.Sbbf
+
+def parseNats (s : String) : Option (List Nat) :=
+  if s = "-" then some [] else allSome ((s.splitOn ",").map String.toNat?)
+
+/-- the code's insert, word after word (`none` = the assertion of `do_hashing` fired) -/
+def insertAll : Filter → List Nat → Option Filter
+  | f, [] => some f
+  | f, x :: xs => match f.deferredInsert? x with
+    | none => none
+    | some g => insertAll g xs
+
+def bit : Option Bool → Char
+  | some true => '1'
+  | some false => '0'
+  | none => '!'
+
+def checks (f : Filter) (qs : List Nat) : String :=
+  if qs.isEmpty then "-" else String.ofList (qs.map fun q => bit (f.check? q))
+
+/-- the serialised filter cut or extended (with `a5`) to `len` bytes -/
+def resize (bytes : List Nat) (len : Nat) : List Nat :=
+  if len ≤ bytes.length then bytes.take len else bytes ++ List.replicate (len - bytes.length) 0xa5
+
+def showParse (r : Except Sbbf.Err Filter) : String :=
+  match r with
+  | .error e => "err:" ++ e.code
+  | .ok g => s!"ok{g.approximateSize / 32}/{showBytes g.toBytes}"
+
+/-- `Filter::new(size)`, inserts, `to_bytes`, `check`s, `try_from` of the bytes and of resized copies -/
+def handleFilter (size : Nat) (ins qs lens : List Nat) : String :=
+  match insertAll (Filter.new size) ins with
+  | none => "panic"
+  | some f =>
+    let bytes := f.toBytes
+    let head := s!"n={f.approximateSize / 32} b={showBytes bytes} c={checks f qs}"
+    let back := match Filter.tryFrom bytes with
+      | .error e => s!"rt=err:{e.code}"
+      | .ok g => s!"rt={if g == f then "eq" else "ne"} c2={checks g qs}"
+    let ts := if lens.isEmpty then "-" else ",".intercalate (lens.map fun l => showParse (Filter.tryFrom (resize bytes l)))
+    s!"{head} {back} T={ts}"
+
+/-- `Filter::try_from` on bytes no filter wrote, then `check`s -/
+def handleParse (bytes qs : List Nat) : String :=
+  match Filter.tryFrom bytes with
+  | .error e => "err:" ++ e.code
+  | .ok g => s!"ok{g.approximateSize / 32}/{showBytes g.toBytes} c={checks g qs}"
+
+def handle : List String → String
+  | ["new", size] => match size.toNat? with
+    | some size => if size < U32 then s!"n={newBlocks size}" else "bad-op"
+    | none => "bad-op"
+  | ["filter", size, ins, qs, lens] =>
+    match size.toNat?, parseNats ins, parseNats qs, parseNats lens with
+    | some size, some ins, some qs, some lens =>
+      if size < U32 ∧ (ins ++ qs).all (· < U64) then handleFilter size ins qs lens else "bad-op"
+    | _, _, _, _ => "bad-op"
+  | ["parse", bytes, qs] =>
+    match parseBytes bytes, parseNats qs with
+    | some bytes, some qs => if qs.all (· < U64) then handleParse bytes qs else "bad-op"
+    | _, _ => "bad-op"
+  | _ => "bad-op"
+
+end Bloom
+
 /-! ### decisions -/
 def handleCheck : List String → String
   | ["key", n] => match n.toNat? with
@@ -318,6 +388,7 @@ def handle : List String → String
         | _, _ => "bad-op"
     | _, _, _, _, _, _ => "bad-op"
   | "sst" :: "divide" :: rest => handleDivide rest
+  | "bloom" :: rest => Bloom.handle rest
   | _ => "bad-op"
 
 end Blue.Driver.C10
